@@ -19,7 +19,7 @@ EXTENDS Emit, SequencesExt
 
 CONSTANTS MaxN, MaxScript, MaxPScript, MaxKScript
 Beh == {1, 2, 3, 4, 0, -4, -11, -5}     \* behaviours used in scripts of the N-octet read/write calls
-PBeh == {1, 2, 4, -4, -5}               \* ... of the plumbing calls (no zero-length returns there, see DESIGN.md)
+PBeh == {1, 2, 4, -4, -5, -12}          \* ... of the plumbing calls (no zero-length returns there, see DESIGN.md); -12: a sink that is full
 
 EINTR == -4
 EAGAIN == -11
@@ -140,6 +140,7 @@ DrainAux(sk, kk, e, R) == LET r == SomeAux(sk, kk, e, R) IN IF r.rc < 0 THEN r E
    An interruption of the source is returned to the caller; a sink reporting "no memory" makes the counted and the
    draining loop try again. *)
 ENOMEM == -12
+EPIPE == -32
 ViaSource(kk, e, R, n) ==
     LET m == IF n = 0 \/ R < n THEN R ELSE n
         g == SrcChunkCall(e, m)
@@ -187,7 +188,10 @@ Result(api, sk, kk, n, L, R, ss, ks) ==
          \* per-octet path: "ssts", "asts", "nsts", "dsts"
          [] api \in {"cbc", "ssts", "asts"} -> PlumbObs(Cbc(sk, kk, e))
          [] api \in {"ncbc", "nsts"} -> PlumbObs(NCbc(sk, kk, e, n, 0))
-         [] api \in {"dcbc", "dsts"} -> PlumbObs(DrainCbc(sk, kk, e))
+         [] api = "dcbc" -> PlumbObs(DrainCbc(sk, kk, e))
+         \* sts_drain takes "no memory" from the sink as the cue to go on through a buffer the source offers; with plain endpoints
+         \* there is none and the call ends with "broken pipe" (an error either way; what reached the sink is a prefix)
+         [] api = "dsts" -> LET r == DrainCbc(sk, kk, e) IN PlumbObs(IF r.rc = ENOMEM THEN Ret(EPIPE, r.e) ELSE r)
          \* (R > 10 encodes a designated region of R - 10 octets that starts 2 octets into the auxiliary block)
          \* the same four calls when the (chunk-style) source offers a scratch buffer of R octets: "sstx", "astx", "nstx", "dstx"
          [] api = "sstx" -> PlumbObs(ViaSource(kk, e, R, 0))
@@ -269,6 +273,7 @@ Next == /\ phase[1] = "b" /\ ev' = Boot
                        ss \in Scripts(PBeh, MaxPScript), ks \in Scripts(PBeh, MaxKScript) :
                        /\ (api \in {"cbc", "ncbc", "dcbc", "ssts", "asts", "nsts", "dsts"} => R = 1)
                        /\ (api \notin {"someaux", "amaux"} => R < 10)
+                       /\ (api \in ExtApis => (\A i \in 1..Len(ss) : ss[i] # ENOMEM) /\ (\A i \in 1..Len(ks) : ks[i] # ENOMEM))   \* a full sink behind a source-offered buffer: not specified
                        /\ (api \in {"sstx", "dstx"} => k = 2)                               \* "some" and "drain": chunk-style sources only
                        /\ (api \in {"astx", "nstx"} /\ k = 1 => L = 4 /\ n <= 2 /\ (\A i \in 1..Len(ss) : ss[i] # EIO))   \* octet-style: plenty of data
                        /\ (api \in {"cbc", "dcbc", "someaux", "daux", "ssts", "dsts", "sstx", "dstx"} => n = 1)
